@@ -543,34 +543,37 @@ func checkGraphEdgesOnlyForModuleInputs(p *core.Prog, r *core.Report, rule strin
 	fn := p.Func(pkgMani, "NewModuleGraph")
 	r.Touch(core.FuncName(fn))
 	// success edges of `input.GetMap() != nil` / `input.GetStore() != nil`
+	// (in NewModuleGraph or in the helper of its family that resolves what an input refers to)
 	var modEdges []core.Edge
-	core.Instrs(fn, func(in ssa.Instruction) {
-		ifi, ok := in.(*ssa.If)
-		if !ok {
-			return
-		}
-		c, neg := core.StripNot(ifi.Cond)
-		bo, ok := c.(*ssa.BinOp)
-		if !ok || (bo.Op != token.EQL && bo.Op != token.NEQ) {
-			return
-		}
-		if k, ok := bo.Y.(*ssa.Const); !ok || !k.IsNil() {
-			return
-		}
-		call, ok := bo.X.(*ssa.Call)
-		if !ok {
-			return
-		}
-		cl := core.CommonCallee(call.Common())
-		if cl == nil || (cl.Name() != "GetMap" && cl.Name() != "GetStore") {
-			return
-		}
-		idx := 0
-		if (bo.Op == token.EQL) != neg {
-			idx = 1
-		}
-		modEdges = append(modEdges, core.Edge{From: ifi.Block(), Idx: idx})
-	})
+	for _, member := range core.Family(fn, 1) {
+		core.Instrs(member, func(in ssa.Instruction) {
+			ifi, ok := in.(*ssa.If)
+			if !ok {
+				return
+			}
+			c, neg := core.StripNot(ifi.Cond)
+			bo, ok := c.(*ssa.BinOp)
+			if !ok || (bo.Op != token.EQL && bo.Op != token.NEQ) {
+				return
+			}
+			if k, ok := bo.Y.(*ssa.Const); !ok || !k.IsNil() {
+				return
+			}
+			call, ok := bo.X.(*ssa.Call)
+			if !ok {
+				return
+			}
+			cl := core.CommonCallee(call.Common())
+			if cl == nil || (cl.Name() != "GetMap" && cl.Name() != "GetStore") {
+				return
+			}
+			idx := 0
+			if (bo.Op == token.EQL) != neg {
+				idx = 1
+			}
+			modEdges = append(modEdges, core.Edge{From: ifi.Block(), Idx: idx})
+		})
+	}
 	inputsF := core.FieldOf(p.Named(pkgPBV1, "Module"), "Inputs")
 	var loop *core.Loop
 	for _, l := range core.LoopIndexing(fn, func(v ssa.Value) bool { f, _ := core.LoadedField(v); return f == inputsF }) {
@@ -599,6 +602,33 @@ func checkGraphEdgesOnlyForModuleInputs(p *core.Prog, r *core.Report, rule strin
 			// that are themselves behind a map/store success edge
 			okFlag := false
 			for _, pred := range allDominatingIfs(in.Block()) {
+				// (3) through a helper's verdict: the flag is a result of a helper of the package that returns it true
+				// only behind its own map/store success edges
+				if ex, isEx := pred.cond.(*ssa.Extract); isEx && pred.trueEdge {
+					if hc, isCall := ex.Tuple.(*ssa.Call); isCall {
+						if helper := core.StaticFn(hc.Common()); helper != nil && helper.Pkg == fn.Pkg && helper.Blocks != nil {
+							good, nRet := true, 0
+							core.Instrs(helper, func(x ssa.Instruction) {
+								ret, isRet := x.(*ssa.Return)
+								if !isRet {
+									return
+								}
+								nRet++
+								rv := core.ReturnValues(ret)[ex.Index]
+								if k, isK := rv.(*ssa.Const); isK && k.Value != nil && k.Value.ExactString() == "false" {
+									return
+								}
+								q3 := core.PathQuery{Fn: helper, CutEdge: func(e core.Edge) bool { return containsEdge(modEdges, e) }}
+								if _, r3 := q3.CanReach(nil, func(y ssa.Instruction) bool { return y == x }); r3 {
+									good = false
+								}
+							})
+							if good && nRet > 0 {
+								okFlag = true
+							}
+						}
+					}
+				}
 				ph, ok := pred.cond.(*ssa.Phi)
 				if !ok || !pred.trueEdge {
 					continue
